@@ -26,6 +26,7 @@ FIRST = {
     "C15-d": "input", "C16-d": "oblig", "C17-d": "oblig", "C18-d": "input", "C19-d": "input", "C20-d": "oblig",
     # round e ("a second, less travelled place")
     "C02-e": "oblig", "C04-e": "input", "C11-e": "missed", "C13-e": "oblig", "C16-e": "input", "C17-e": "oblig", "C20-e": "input",
+    "C03-e": "oblig", "C05-e": "oblig", "C07-e": "oblig", "C14-e": "input", "C18-e": "input", "C19-e": "input",
     "C06-e": "input", "C09-e": "input", "C15-e": "oblig", "C01-e": "input", "C08-e": "input", "C10-e": "input", "C12-e": "input",
 }
 
@@ -63,6 +64,9 @@ STRENGTHENED = {
     "C02-e": "two issuers with rearranged names and one serial: the second certificate's revoked answer must not lose to the first one's cache entry",
     "C11-e": "issuer names of the same attributes in another order / grouping / with attributes crypto/x509 has no field for; fingerprints of ParseIssuerRDNSequence & co. (was outside every pattern)",
     "C13-e": "failed store swap vs Repository.Close vs lookup, 250 rounds with seeded microsecond jitter",
+    "C03-e": "validators loaded from JSON whose configuration still lists crl_urls / crl_files, in every mode: in 'disabled' and 'ocsp_only' the location must see no request and the work directory must stay empty (at Provision, at a handshake, over two ticker periods)",
+    "C05-e": "authority key identifier forms of the client certificate (key id, name+serial, URI+serial, serial alone, name alone, empty, wrong name) x a certificate that only shares the issuer's serial number (trusted responder certificate / second verified chain) signing the answer",
+    "C07-e": "candidate search driven directly with hostile authority key identifiers (every subset of the three fields, every irregular GeneralName, wrong tags, truncations, garbage) x chain shapes; C04 matrix: name without serial, empty SEQUENCE",
     "C15-e": "the run did not end (every refresh panicked or failed slowly, thousands of tick goroutines queued behind the refresh mutex and the harness waited behind them): bounded forced refresh before Close, a harness-wide deadline that writes out what was found and where the run is stuck",
     "C17-e": "heap peaks per phase: outside of the parsing phase (download, detection, first pass, fingerprinting, swap) the peak must not depend on N",
 }
